@@ -8,6 +8,7 @@ import Driver.OrdCmd
 import Driver.UeqCmd
 import Driver.CanonCmd
 import Driver.MappedCmd
+import Driver.SerdeCmd
 /-!
 Line-protocol driver: one request per line on stdin, one reply per line on stdout.
 The first word selects the model component; see DESIGN.md §2.4.
@@ -25,6 +26,7 @@ def handle (line : String) : String :=
   | "ueq" :: args => ueqCmd args
   | "canon" :: args => canonCmd args
   | "mapped" :: args => mappedCmd args
+  | "serde" :: args => serdeCmd args
   | _ => "bad-op"
 
 partial def loop (hin : IO.FS.Stream) (hout : IO.FS.Stream) : IO Unit := do
